@@ -75,7 +75,7 @@ def run_native(exe, inputs, extra_args=()):
     return reproduced, out
 
 
-def make_replay(pid, res, ob, clause, verif, confirm=True):
+def make_replay(pid, res, ob, clause, verif, confirm=True, others=()):
     proof = res.proof
     rdir = os.path.join(VERIF, 'replays', pid)
     os.makedirs(rdir, exist_ok=True)
@@ -84,7 +84,7 @@ def make_replay(pid, res, ob, clause, verif, confirm=True):
     inputs = clean_inputs(inputs)
     rp = {'property': pid, 'proof': proof.name, 'obligation': ob['property'], 'description': ob.get('description', ''),
           'clause': clause, 'source': ob.get('sourceLocation', {}), 'inputs': inputs, 'verifier': 'cbmc 6.11.0', 'cmd': res.cmd,
-          'trace_tail': trace[-6000:], 'confirmed': False, 'native': None, 'path': path,
+          'other_failing_obligations': list(others), 'trace_tail': trace[-6000:], 'confirmed': False, 'native': None, 'path': path,
           'functions': [dict(function=f['function'], source=f['source'], line=f['line']) for f in res.functions]}
     if proof.replay and confirm:
         driver = proof.replay[0]; extra = proof.replay[1:]
